@@ -258,7 +258,11 @@ func (w *World) checkAccounts(l *LState, pit *time.Time, pageSize uint64) {
 		}
 		if moves {
 			if d := volumesByAssetsDiff(g.Volumes, insVols[a.Address]); d != "" {
-				w.V("C02", "%s: account %s volumes: %s\nhistory:\n  %s", what, a.Address, d, l.History())
+				code := "C02"
+				if pit != nil {
+					code = "C02|C05"
+				}
+				w.V(code, "%s: account %s volumes: %s\nhistory:\n  %s", what, a.Address, d, l.History())
 			}
 		}
 		if effective {
@@ -327,6 +331,11 @@ func (w *World) checkVolumes(l *LState, pit, oot *time.Time, useInsertionDate bo
 		v := vols.Get(k[0], k[1])
 		want[g][k[1]] = refmodel.Vol{In: new(big.Int).Add(cur.In, v.In), Out: new(big.Int).Add(cur.Out, v.Out)}
 	}
+	foldCode, zeroCode := "C02", "C01"
+	if windowed {
+		// a point-in-time / window read that disagrees with the fold is (also) a C05 violation
+		foldCode, zeroCode = "C02|C05", "C01|C05"
+	}
 	seen := map[[2]string]bool{}
 	prev := ""
 	totals := map[string]*big.Int{}
@@ -345,10 +354,10 @@ func (w *World) checkVolumes(l *LState, pit, oot *time.Time, useInsertionDate bo
 			if !windowed && g.Input.Sign() == 0 && g.Output.Sign() == 0 {
 				continue // zero row created by balance locking
 			}
-			w.V("C02", "%s: unexpected %s/%s = (%s,%s)\nhistory:\n  %s", what, g.Account, g.Asset, g.Input, g.Output, l.History())
+			w.V(foldCode, "%s: unexpected %s/%s = (%s,%s)\nhistory:\n  %s", what, g.Account, g.Asset, g.Input, g.Output, l.History())
 		}
 		if g.Input.Cmp(wv.In) != 0 || g.Output.Cmp(wv.Out) != 0 || g.Balance.Cmp(wv.Balance()) != 0 {
-			w.V("C02", "%s: %s/%s = (%s,%s,bal %s), the fold of committed postings gives %s\nhistory:\n  %s", what, g.Account, g.Asset, g.Input, g.Output, g.Balance, wv, l.History())
+			w.V(foldCode, "%s: %s/%s = (%s,%s,bal %s), the fold of committed postings gives %s\nhistory:\n  %s", what, g.Account, g.Asset, g.Input, g.Output, g.Balance, wv, l.History())
 		}
 		if totals[g.Asset] == nil {
 			totals[g.Asset] = new(big.Int)
@@ -357,12 +366,12 @@ func (w *World) checkVolumes(l *LState, pit, oot *time.Time, useInsertionDate bo
 	}
 	for _, k := range want.Keys() {
 		if !seen[k] {
-			w.V("C02", "%s: %s/%s missing (the fold gives %s)\nhistory:\n  %s", what, k[0], k[1], want.Get(k[0], k[1]), l.History())
+			w.V(foldCode, "%s: %s/%s missing (the fold gives %s)\nhistory:\n  %s", what, k[0], k[1], want.Get(k[0], k[1]), l.History())
 		}
 	}
 	for asset, tot := range totals {
 		if tot.Sign() != 0 {
-			w.V("C01", "%s: balances of %s sum to %s, not zero\nhistory:\n  %s", what, asset, tot, l.History())
+			w.V(zeroCode, "%s: balances of %s sum to %s, not zero\nhistory:\n  %s", what, asset, tot, l.History())
 		}
 	}
 }
@@ -399,6 +408,10 @@ func (w *World) checkAggregated(l *LState, pit *time.Time, useInsertionDate bool
 	} else {
 		vols = l.M.VolumesNow()
 	}
+	aggCode := "C02"
+	if pit != nil {
+		aggCode = "C02|C05"
+	}
 	want := map[string]*big.Int{}
 	for _, k := range vols.Keys() {
 		if match != nil && !match(k[0]) {
@@ -416,19 +429,19 @@ func (w *World) checkAggregated(l *LState, pit *time.Time, useInsertionDate bool
 				// an asset whose matching balances cancel out may or may not be listed with 0
 				continue
 			}
-			w.V("C02", "%s: asset %s missing, the fold gives %s\nhistory:\n  %s", what, asset, wv, l.History())
+			w.V(aggCode, "%s: asset %s missing, the fold gives %s\nhistory:\n  %s", what, asset, wv, l.History())
 		}
 		if gv.Cmp(wv) != 0 {
-			code := "C02"
+			code := aggCode
 			if match == nil {
-				code = "C01"
+				code = "C01|" + aggCode
 			}
-			w.T.Fatalf("VIOLATION[%s]: %s: aggregated balance of %s is %s, the fold gives %s\nhistory:\n  %s", code, what, asset, gv, wv, l.History())
+			w.V(code, "%s: aggregated balance of %s is %s, the fold gives %s\nhistory:\n  %s", what, asset, gv, wv, l.History())
 		}
 	}
 	for asset, gv := range got {
 		if _, ok := want[asset]; !ok && gv.Sign() != 0 {
-			w.V("C02", "%s: unexpected asset %s = %s\nhistory:\n  %s", what, asset, gv, l.History())
+			w.V(aggCode, "%s: unexpected asset %s = %s\nhistory:\n  %s", what, asset, gv, l.History())
 		}
 		if match == nil && gv.Sign() != 0 {
 			w.V("C01", "%s: balances of %s over all accounts sum to %s, not zero\nhistory:\n  %s", what, asset, gv, l.History())
